@@ -77,8 +77,8 @@ Definition verify_gen (fresh_rule : bool) (ps : N) (pos : N) (last : l0hdr) (syn
           if negb (last_page_match last (be32 w i) (be32 w (i + 8)) (be32 w (i + 12)) fd)
           then VOk base
           else if negb saltMatch then
-            (* nothing synced since this object was opened (lastSyncedWALOffset = 0): the WAL was
-               restarted while the read lock was not held - only a snapshot is safe *)
+            (* no sync of this session has reached the WAL end yet (reachedWALEnd = false): the old
+               WAL held frames never copied - only a snapshot is safe *)
             if fresh_rule && N.eqb lastOff 0 then VOk (mkInfo WALHeaderSize hs1 hs2 (l_commit last) true false) else
             match detect_full_checkpoint w hs1 hs2 (l_s1 last) (l_s2 last) with
             | None => VErr
@@ -89,8 +89,10 @@ Definition verify_gen (fresh_rule : bool) (ps : N) (pos : N) (last : l0hdr) (syn
       end
   end.
 
-(** [lastOff] = syncState.lastSyncedWALOffset (0 until the first sync of an open
-    session has copied something).  [verify] is the function of the current code;
+(** [lastOff] stands for syncState.reachedWALEnd (0 = no sync of the current open
+    session has reached the end of the WAL yet; the harness passes the flag).  Before
+    the repair of F18 the code used lastSyncedWALOffset = 0 here, which stopped
+    protecting a chunked catch-up after its first chunk.  [verify] is the function of the current code;
     [verify_gen false] is the decision before the repair of F2 (the fresh-session rule
     did not exist), kept for the witness of the repaired defect. *)
 Definition verify := verify_gen true.
